@@ -55,6 +55,21 @@ def containers_recurse(model, rel):
                     ok = True
                 if isinstance(anc, (ast.ListComp, ast.GeneratorExp, ast.SetComp)) and any(ast.unparse(g2.iter) == want_iter for g2 in anc.generators):
                     ok = True
+        # ... and on every path on which the check of the container ends without an error: a return before the loop that depends on the configuration of the
+        # object (a flag computed when compiling) skips the children of some types for good
+        if ok and coll is not None:
+            ps_ = sem.paths(f, positional=True, resolver=sem.class_resolver(ccls))
+            if ps_ is not None:
+                want_ = 'ARG0' if coll == 'DATA' else coll
+                for p_ in ps_:
+                    if p_.outcome[0] != 'return':
+                        continue
+                    looped = any(ev[0] in ('loop', 'in-loop:loop') and ev[1] == want_ for ev in p_.events)
+                    if looped:
+                        continue
+                    on_data = any(re.search(r'\bARG0\b', c_[0]) for c_ in p_.conds)
+                    if not on_data:
+                        ok = False
         out.append((cn, coll, f, ok))
     return out
 
